@@ -469,6 +469,30 @@ fn area_queue(cx: &mut Cx, r: &mut Rng) {
         Some(q) => q,
         None => return,
     };
+    // a reader thread polls every read-only call while this thread emits and the worker drains: none of them may
+    // panic at any moment (transient counter states, arithmetic on them, Debug formatting)
+    let stop = std::sync::Arc::new(std::sync::atomic::AtomicBool::new(false));
+    let reader = {
+        let h = q.clone();
+        let stop = stop.clone();
+        std::thread::spawn(move || {
+            let mut n = 0u64;
+            let mut first_panic: Option<String> = None;
+            while !stop.load(std::sync::atomic::Ordering::Relaxed) && first_panic.is_none() {
+                if let Err(p) = panics::guard(|| {
+                    let _ = (h.queued(), h.submitted(), h.drained(), h.panics());
+                    let _ = h.stats();
+                    if n % 16 == 0 {
+                        let _ = format!("{:?}", h);
+                    }
+                }) {
+                    first_panic = Some(p);
+                }
+                n += 1;
+            }
+            (n, first_panic)
+        })
+    };
     let mut handles = vec![q];
     for i in 0..r.range(5, 80) {
         match r.below(10) {
@@ -496,6 +520,13 @@ fn area_queue(cx: &mut Cx, r: &mut Rng) {
                 let h = &handles[r.usize_below(handles.len())];
                 cx.call("queue", "emit", tr, || { let _ = h.emit(&m); });
             }
+        }
+    }
+    stop.store(true, std::sync::atomic::Ordering::Relaxed);
+    if let Ok((n, p)) = reader.join() {
+        cx.rep.obs("concurrent_read_only_calls_on_queuing_sink", n);
+        if let Some(p) = p {
+            cx.panic("queue", "queued()/submitted()/drained()/panics()/stats()/Debug polled while metrics flow", p, tr());
         }
     }
     cx.call("queue", "drop(all)", tr, move || drop(handles));
